@@ -18,11 +18,13 @@
 
 #include <atomic>
 #include <chrono>
+#include <condition_variable>
 #include <cstdio>
 #include <cstdlib>
 #include <map>
 #include <unistd.h>
 #include <memory>
+#include <mutex>
 #include <string>
 #include <thread>
 #include <vector>
@@ -80,19 +82,74 @@ inline void freezeIfAsked(const char *what)
   {
     std::fprintf(stderr, "C10-FREEZE pid=%d %s (%s)\n", static_cast<int>(::getpid()), what, f);
     std::fflush(stderr);
+    pbt::watchdog(0, "");
     for (;;) ::pause();
   }
 }
 
-/// wait until pred() or the bound expires; polls politely (the waiting thread must not
-/// starve the threads it waits for on a loaded machine)
+/// Canary: measures whether this process' threads actually get woken and scheduled. A pacer thread
+/// sleeps 1 ms and signals a condition variable; the counter counts how often the *waiter* thread
+/// returned from its wait. On an idle machine that is ~900 ticks/s; when the machine (or the VM) is
+/// starved or paused it slows down or stops - exactly like the thread whose wake-up a bounded wait
+/// is waiting for. Bounded waits therefore require wall time AND canary ticks: "the parked caller did
+/// not return although, since its wake-up condition was established, 4 s passed and another thread
+/// of this process was woken through a condition variable >= 1000 times".
+struct Canary
+{
+  std::mutex mu;
+  std::condition_variable cv;
+  bool flag = false;
+  std::atomic<std::uint64_t> ticks{0};
+  static Canary &get()
+  {
+    static Canary *c = []
+    {
+      auto *k = new Canary; // lives for the whole process, threads detached
+      std::thread(
+        [k]
+        {
+          for (;;)
+          {
+            std::unique_lock<std::mutex> lk(k->mu);
+            k->cv.wait(lk, [k] { return k->flag; });
+            k->flag = false;
+            k->ticks.fetch_add(1, std::memory_order_release);
+          }
+        })
+        .detach();
+      std::thread(
+        [k]
+        {
+          for (;;)
+          {
+            std::this_thread::sleep_for(std::chrono::milliseconds(1));
+            {
+              std::lock_guard<std::mutex> lk(k->mu);
+              k->flag = true;
+            }
+            k->cv.notify_one();
+          }
+        })
+        .detach();
+      return k;
+    }();
+    return *c;
+  }
+};
+
+/// wait until pred() holds, or until BOTH `seconds` of wall time passed and the canary was woken
+/// >= 250 x seconds times meanwhile; polls politely (the waiting thread must not starve the
+/// threads it waits for on a loaded machine)
 template <class Pred> bool waitBounded(double seconds, Pred pred)
 {
-  auto t0 = Clock::now();
+  Canary &cn = Canary::get();
+  const auto t0 = Clock::now();
+  const std::uint64_t k0 = cn.ticks.load(std::memory_order_acquire);
+  const std::uint64_t need = static_cast<std::uint64_t>(seconds * 250.0);
   for (int i = 0;; ++i)
   {
     if (pred()) return true;
-    if (since(t0) > seconds) return pred();
+    if (since(t0) > seconds && cn.ticks.load(std::memory_order_acquire) - k0 >= need) return pred();
     if (i < 200)
       std::this_thread::yield();
     else
